@@ -146,6 +146,8 @@ Value ProblemSpec::to_json() const
     v["p1"]         = p1;
     v["p2"]         = p2;
     v["alpha_jump"] = alpha_jump;
+    if (scale_exp != 0)
+        v["scale_exp"] = scale_exp;
     return v;
 }
 ProblemSpec ProblemSpec::from_json(const Value& v)
@@ -158,6 +160,7 @@ ProblemSpec ProblemSpec::from_json(const Value& v)
     s.p1         = v.at("p1").as_double(0.3);
     s.p2         = v.at("p2").as_double(0.2);
     s.alpha_jump = v.at("alpha_jump").as_double(0.5);
+    s.scale_exp  = v.has("scale_exp") ? (int)v.at("scale_exp").as_int(0) : 0;
     return s;
 }
 std::string ProblemSpec::str() const
@@ -166,7 +169,8 @@ std::string ProblemSpec::str() const
     static const char* pn[] = {"CartesianR2", "CartesianR6", "PolarR6", "Refined"};
     static const char* cn[] = {"Poisson", "Sonnendrucker", "SonnendruckerGyro", "Zoni", "ZoniGyro", "ZoniShifted",
                                "ZoniShiftedGyro"};
-    return fmt("%s/%s/%s", gn[geometry & 3], pn[problem & 3], cn[coeff % 7]);
+    return fmt("%s/%s/%s%s", gn[geometry & 3], pn[problem & 3], cn[coeff % 7],
+               scale_exp ? fmt("*2^%d", scale_exp).c_str() : "");
 }
 
 #define MK_GEO3(VAR, PFX)                                                                                              \
@@ -188,7 +192,28 @@ std::string ProblemSpec::str() const
     case 6: MK_GEO3(p.source, P##_ZoniShiftedGyro_) break;                                                             \
     }
 
+namespace {
+// the same profile in other physical units: alpha and beta times a power of two (exact in floating point, so every
+// operator entry scales exactly and a relative oracle needs no change)
+struct ScaledCoefficients : DensityProfileCoefficients {
+    std::unique_ptr<DensityProfileCoefficients> inner;
+    double f;
+    ScaledCoefficients(std::unique_ptr<DensityProfileCoefficients> in, int e) : inner(std::move(in)), f(std::ldexp(1.0, e)) {}
+    double alpha(const double& r) const override { return f * inner->alpha(r); }
+    double beta(const double& r) const override { return f * inner->beta(r); }
+    double getAlphaJump() const override { return inner->getAlphaJump(); }
+};
+} // namespace
+
+static Problem make_problem_unscaled(const ProblemSpec& s);
 Problem make_problem(const ProblemSpec& s)
+{
+    Problem p = make_problem_unscaled(s);
+    if (s.scale_exp != 0)
+        p.coeff = std::make_unique<ScaledCoefficients>(std::move(p.coeff), s.scale_exp);
+    return p;
+}
+static Problem make_problem_unscaled(const ProblemSpec& s)
 {
     Problem p;
     switch (s.geometry) {
